@@ -19,7 +19,7 @@ RULE = (
 )
 ASSUMPTIONS = [
     "scenarios are restricted to sequential scripts without local races so that the exchange is schedule-independent; both runs use the same seed, so their schedules are identical unless the raising handler itself perturbs them",
-    "a raising handler prevents later handlers bound to the same notification event from running (pynetdicom stops at the first exception); the scenarios bind no second behaviour-changing handler to a notification event",
+    "the scenarios bind no second behaviour-changing handler to a notification event (each handler bound to a notification event is called whether or not an earlier one raised)",
 ]
 
 
@@ -29,7 +29,54 @@ def budget(tier):
     return {"runs": 300, "wall": 300, "selftest": 10, "shrink_s": 30}
 
 
+def _gen_intervention(rng):
+    """Second sentence of the property: an *intervention* handler that raises (before, between or after its yields,
+    or instead of returning) - the exception must come back as the documented failure response."""
+    from props import scp as S
+
+    op = rng.choice(S.OPS)
+    b = S.gen_behaviour(rng, op)
+    if "ret" in b:
+        b["ret"] = {"t": "raise"}
+    else:
+        if rng.randrange(3) == 0 or not b.get("items"):
+            b["mode"] = "raise_first"
+        else:
+            k = rng.randrange(len(b["items"]))
+            b["items"] = [it for it in b["items"][:k] if "status" in it and it.get("ds") == "ds" and not it["status"].get("foreign_msg_id") and it["status"]["t"] in ("int", "ds") and it["status"].get("v") in (0xFF00, 0xFF01)] + [{"raise": True}]
+            b["mode"] = "gen"
+        if op in ("get", "move"):
+            b["count"] = len(b.get("items", [])) + 1
+        if op == "move":
+            b["dest"] = "ok"
+    return {"family": "intervention", "op": op, "beh": b, "msg_id": rng.choice([0, 1, 9]), "max_pdu": 16382, "second_echo": True,
+            "sched": C.gen_sched(rng, fine_pct=10), "net": C.gen_net(rng)}
+
+
+def directed(tier):
+    """Every service's intervention handler raising: at once, and (generators) after 1-3 matches."""
+    from props import scp as S
+
+    out = []
+    base = {"family": "intervention", "msg_id": 1, "max_pdu": 16382, "second_echo": True, "sched": {"switch_pct": 20}, "net": {"seg": "whole"}}
+    pend = {"status": {"t": "int", "v": 0xFF00}, "ds": "ds"}
+    for op in S.OPS:
+        if op in S.GEN_OPS:
+            out.append(dict(base, op=op, beh={"mode": "raise_first", "items": [], "count": 0, "dest": "ok", "store": ["ok"]}))
+            for k in (1, 2, 3):
+                # (announce one sub-operation more than delivered: results after the announced number are ignored by design)
+                out.append(dict(base, op=op, beh={"mode": "gen", "items": [dict(pend) for _ in range(k)] + [{"raise": True}], "count": k + 1,
+                                                  "dest": "ok", "store": ["ok"] * (k + 1)}))
+        elif op in S.N_PAIR_OPS:
+            out.append(dict(base, op=op, beh={"ret": {"t": "raise"}, "ds": "ds", "shape": "pair"}))
+        else:
+            out.append(dict(base, op=op, beh={"ret": {"t": "raise"}}))
+    return out
+
+
 def gen(rng, idx, tier):
+    if idx % 4 == 3:
+        return _gen_intervention(rng)
     t = rng.choice([0.1, 0.2])
     sc = {"sched": {"switch_pct": rng.choice([5, 15, 30, 50])}, "net": C.gen_net(rng)}
     sc["acc"] = {"acse": 2 * t, "dimse": 2 * t, "network": 6 * t, "max_pdu": rng.choice([0, 128, 16382]),
@@ -52,12 +99,15 @@ def gen(rng, idx, tier):
     sc["acc_ops"] = []
     sc["faults"] = []
     sc["raise"] = {"seed": rng.randrange(10 ** 6), "pct": rng.choice([10, 30, 60, 100])}
+    sc["handler_args"] = rng.randrange(2) == 0     # handlers bound as (event, handler) or as (event, handler, [args])
     return sc
 
 
 def shrink(sc):
     import copy
 
+    if sc.get("family") == "intervention":
+        return
     for d in L.shrink(sc):
         yield d
     if sc["raise"]["pct"] < 100:
@@ -83,6 +133,36 @@ def run_case(sc, seed, replay=None, lenient=False):
     """Differential pair.  Run B is the reported/replayed run; run A (no raising) is recomputed from the same seed."""
     import copy
 
+    if sc.get("family") == "intervention":
+        from props import c20 as C20
+        from props import c21 as C21
+        from props import scp as S
+
+        class _Scp:
+            execute = staticmethod(S.execute)
+
+        r = H.run_once(_Scp, sc, seed, replay=replay, lenient=lenient)
+        viol = []
+        for v in list(C20.check(sc, r)):
+            v = dict(v)
+            v["sig"] = "C26/intervention/" + v["sig"].split("/", 1)[1]
+            viol.append(v)
+        if not r.failure and r.obs.get("established"):
+            rq, rsps, ends, s2c, _ = S.request_and_responses(sc, r)
+            infos = [S.rsp_info(m, s2c) for m in rsps] if rq is not None else []
+            op = sc["op"]
+            want = 0x0110 if op.startswith("n_") else C21.EXC_CODE.get(op)
+            fin = [x for x in infos if not S.is_pending(x["status"])]
+            if fin and want is not None and fin[-1]["status"] != want:
+                viol.append(C.v("failure-response", "C26/intervention/failure-status/%s" % op,
+                                "the %s handler raised; the final response carries 0x%04X, documented failure status is 0x%04X" % (op, fin[-1]["status"] or 0, want)))
+            for x in fin:
+                if op in ("find",) and x["ds_len"]:
+                    viol.append(C.v("failure-response", "C26/intervention/failure-response-with-dataset/%s" % op,
+                                    "the failure response (0x%04X) of the raising %s handler carries a %d byte data set" % (x["status"] or 0, op, x["ds_len"])))
+                    break
+        r.obs["raised"] = len([h for h in r.hist if h["kind"] == "handler"])
+        return r, viol, (sc["op"], repr(sc["beh"]))
     sa = copy.deepcopy(sc)
     sa.pop("raise", None)
     mod = _Plain
@@ -129,11 +209,17 @@ def check(sc, r):  # not used (run_case does the judging)
 
 
 def probes(sc, r):
+    if sc.get("family") == "intervention":
+        return {"intervention_handler_raised": True, "intervention_" + sc["op"]: True}
     return {"handlers_raised": r.obs.get("raised", 0) > 0, "raise_invocations": r.obs.get("raised", 0),
-            "rejected_scenario": bool(sc["acc"]["reject"])}
+            "rejected_scenario": bool(sc["acc"]["reject"]), "bound_with_args": bool(sc.get("handler_args"))}
 
 
 def sample(sc, r):
+    if sc.get("family") == "intervention":
+        from props import c21 as C21
+
+        return C21.sample(sc, r)
     t = _transcript(r)
     return {"scenario": {"ops": sc["req"][0]["ops"], "final": sc["req"][0]["final"], "reject": sc["acc"]["reject"], "raise": sc["raise"]},
             "handler_invocations_that_raised": r.obs.get("raised"),
